@@ -31,6 +31,11 @@
   mutable components (which needs the well-formedness invariants of the QDLDL workspace, C12
   `refactor_eq_fresh`, carried through `kktsystem.update/solve`, and the "`0·stale` is the same
   zero" side condition above) is not carried by a theorem.
+
+  ADDED LATER (`Props/C05Idem.lean`, `Lemmas/SolverStale*.lean`): the irrelevance of ALL the other
+  mutable components is now a theorem (`C05.full_solve_reads_only`, `full_solve_idempotent_finite_partial`),
+  with exactly the side conditions 1. (as "`0·stale` gives the same zeros") and 2. above and one
+  remaining hypothesis about `KKTSolver::update` (`QW`).
 -/
 import ClarabelProofs.Lemmas.SolverModelIdem
 import ClarabelProofs.Lemmas.SolverModelExample
